@@ -93,7 +93,32 @@ func basePlan(k int) *workflow.Plan {
 						{Name: "s0", Descr: "s0", Actions: []*workflow.Action{sAction("b0/s0/a0", "act"), sAction("b0/s0/a1", "act")}},
 						{Name: "s1", Descr: "s1", Actions: []*workflow.Action{sAction("b0/s1/a0", "act")}}}},
 				{Name: "b1", Descr: "b1", Sequences: []*workflow.Sequence{{Name: "s0", Descr: "s0", Actions: []*workflow.Action{sAction("b1/s0/a0", "act")}}}}}}
-	default: // every check group at both levels
+	case 2: // every check group at both levels
+		return basePlanAllGroups()
+	default: // 3+: the grid of valid shapes: every subset of the five check groups on the plan (3..34) and on the block (35..66)
+		g := k - 3
+		level, mask := g/32, g%32
+		p := &workflow.Plan{Name: "p", Descr: "p"}
+		b := &workflow.Block{Name: "b0", Descr: "b0", Sequences: []*workflow.Sequence{{Name: "s0", Descr: "s0", Actions: []*workflow.Action{sAction("b0/s0/a0", "act")}}}}
+		p.Blocks = []*workflow.Block{b, {Name: "b1", Descr: "b1", Sequences: []*workflow.Sequence{{Name: "s0", Descr: "s0", Actions: []*workflow.Action{sAction("b1/s0/a0", "act")}}}}}
+		set := func(by, pre, cont, post, def **workflow.Checks, prefix string) {
+			for gi, slot := range []**workflow.Checks{by, pre, cont, post, def} {
+				if mask&(1<<gi) != 0 {
+					*slot = sChecks(fmt.Sprintf("%s/g%d", prefix, gi), 1)
+				}
+			}
+		}
+		if level == 0 {
+			set(&p.BypassChecks, &p.PreChecks, &p.ContChecks, &p.PostChecks, &p.DeferredChecks, "p")
+		} else {
+			set(&b.BypassChecks, &b.PreChecks, &b.ContChecks, &b.PostChecks, &b.DeferredChecks, "b0")
+		}
+		return p
+	}
+}
+
+func basePlanAllGroups() *workflow.Plan {
+	{
 		p := &workflow.Plan{Name: "p", Descr: "p", BypassChecks: sChecks("p/by", 1), PreChecks: sChecks("p/pre", 2), ContChecks: sChecks("p/cont", 1), PostChecks: sChecks("p/post", 1), DeferredChecks: sChecks("p/def", 1)}
 		b := &workflow.Block{Name: "b0", Descr: "b0", BypassChecks: sChecks("b0/by", 1), PreChecks: sChecks("b0/pre", 1), ContChecks: sChecks("b0/cont", 2), PostChecks: sChecks("b0/post", 1), DeferredChecks: sChecks("b0/def", 1),
 			Sequences: []*workflow.Sequence{{Name: "s0", Descr: "s0", Actions: []*workflow.Action{sAction("b0/s0/a0", "act")}}}}
@@ -652,6 +677,11 @@ func enumC16(env *EnumEnv, it *WorkItem) *EnumResult {
 			res.Samples = append(res.Samples, c.describe())
 		}
 	}
+	// every valid shape of the grid must be admitted as it is (and obey the admission rules)
+	g.phase = "grid of valid shapes"
+	for base := 3; base < 3+64; base++ {
+		eval(submitCase{Base: base})
+	}
 	for base := 0; base < 3; base++ {
 		g.phase = fmt.Sprintf("base shape %d: single mutations, then pairs", base)
 		eval(submitCase{Base: base})
@@ -695,7 +725,7 @@ func init() {
 	register(&PropDef{
 		ID:    "C16",
 		Level: "exploration",
-		Rule: "three base shapes (minimal, medium, every check group at both levels) must be accepted; EVERY single mutation from a catalogue of 37 (a request the plugin accepts but the store cannot encode - verdict free, a refusal must leave nothing -, blank/whitespace names and descriptions, missing or nil children, pre-set id/state/attempts/reason/submit time/register, key v7/v4/shared, timeouts 1 s / 5 s-1 ns / negative / 5 s, " +
+		Rule: "three base shapes (minimal, medium, every check group at both levels) and the grid of 64 valid shapes (every subset of the five check groups on the plan or on a block) must be accepted; EVERY single mutation from a catalogue of 37 (a request the plugin accepts but the store cannot encode - verdict free, a refusal must leave nothing -, blank/whitespace names and descriptions, missing or nil children, pre-set id/state/attempts/reason/submit time/register, key v7/v4/shared, timeouts 1 s / 5 s-1 ns / negative / 5 s, " +
 			"unknown or empty plugin, rejected/wrong-typed/nil request, swapped plugin kind, negative retries/concurrency) at EVERY object of the tree, and EVERY pair of them on the medium shape (all shapes in the thorough tier); each case runs Submit on a real Workstream over a fresh in-memory sqlite vault; " +
 			"oracle: independent validity flag of the mutations; on rejection all five tables are empty, on acceptance the stored plan has pairwise-distinct v7 ids, pristine NotStarted state, submit time, defaults, and Start refuses non-check plugins in check groups; distinct_nontrivial = cases with at least one mutation",
 		Assumptions: []string{"mutations are independent except where listed (shared key needs two objects; later timeout/plugin mutations override earlier ones and are re-evaluated on the final plan)"},
